@@ -6,6 +6,7 @@ import copy
 import itertools
 import os
 import re
+import zlib
 
 import gen
 import impl
@@ -279,7 +280,7 @@ def oracle_routes(ctx: Ctx, case: dict, d: dict, fl: str, suffix: str = "") -> N
     # the same path written again with different content of the same size and the same time stamps (coarse file-system
     # clocks, cp -p, restored backups): what is read must be what is in the file now, through read and through load
     tw2 = same_size_twin(d)
-    if tw2 is not None and not case.get("np"):
+    if tw2 is not None and not case.get("np") and zlib.crc32(repr(d).encode()) % 3 == 0:
         try:
             with impl.scratch() as td:
                 p = td / ("s" + suffix)
@@ -301,7 +302,7 @@ def oracle_routes(ctx: Ctx, case: dict, d: dict, fl: str, suffix: str = "") -> N
         except Exception as e:  # noqa: BLE001
             ctx.violation("file route (same path rewritten) raises", case, repr(e), enc(exp)); return
     # the same data handed over in other argument types: OrderedDict / str subclass / IntEnum values, path as str and PurePath
-    if not case.get("np") and hash(repr(d)) % 4 == 0:
+    if not case.get("np") and zlib.crc32(repr(d).encode()) % 4 == 0:
         try:
             with impl.scratch() as td:
                 reset_globals()
